@@ -19,6 +19,8 @@ func drainPools() {
 
 // alone computes each body's result on fresh pools, outside any controlled execution.
 func alone(idx []int) []string {
+	vsync.Poison = false
+	defer func() { vsync.Poison = true }()
 	out := make([]string, len(idx))
 	for k, i := range idx {
 		drainPools()
@@ -134,7 +136,7 @@ func (s scen) String() string {
 
 func scenarios(tier string) []scen {
 	var out []scen
-	hooked := []int{0, 1, 2, 3, 4, 5, 6, 7} // pool users + LoadFont
+	hooked := []int{0, 1, 2, 3, 4, 5, 8, 9, 11, 12} // pool users (incl. two star bodies) + LoadFont
 	if tier == "quick" {
 		// all unordered pairs incl. a body with itself, bounds (1,0) and (0,1)
 		for a := 0; a < len(hooked); a++ {
@@ -143,11 +145,11 @@ func scenarios(tier string) []scen {
 				out = append(out, scen{[]int{hooked[a], hooked[b]}, 0, 1, "lifo-fifo-new"})
 			}
 		}
-		for _, pr := range [][]int{{0, 2}, {0, 7}, {2, 5}, {0, 5}} {
+		for _, pr := range [][]int{{0, 2}, {0, 12}, {2, 5}, {0, 5}} {
 			out = append(out, scen{pr, 2, 0, "lifo-fifo-new"})
 		}
-		out = append(out, scen{[]int{0, 2, 7}, 1, 0, "lifo-fifo-new"})
-		out = append(out, scen{[]int{7, 7}, 2, 0, "lifo-fifo-new"})
+		out = append(out, scen{[]int{0, 2, 12}, 1, 0, "lifo-fifo-new"})
+		out = append(out, scen{[]int{12, 12}, 2, 0, "lifo-fifo-new"})
 		return out
 	}
 	for a := 0; a < len(hooked); a++ {
@@ -160,7 +162,7 @@ func scenarios(tier string) []scen {
 			}
 		}
 	}
-	for _, t := range [][]int{{0, 1, 2}, {0, 2, 7}, {3, 4, 5}, {7, 7, 7}, {1, 5, 7}} {
+	for _, t := range [][]int{{0, 1, 2}, {0, 2, 12}, {3, 4, 5}, {12, 12, 12}, {1, 5, 12}} {
 		out = append(out, scen{t, 2, 0, "lifo-fifo-new"})
 		out = append(out, scen{t, 1, 1, "lifo-fifo-new"})
 	}
@@ -175,10 +177,11 @@ func histories(tier string) []scen {
 	if tier == "thorough" {
 		depth, dev = 3, 2
 	}
+	menu := []int{0, 1, 2, 3, 4, 5, 6, 8} // the light pool users and one star body
 	var rec func(prefix []int)
 	rec = func(prefix []int) {
 		if len(prefix) >= 1 {
-			for probe := 0; probe < PoolUsers; probe++ {
+			for _, probe := range menu {
 				h := append(append([]int{}, prefix...), probe)
 				out = append(out, scen{h, 0, dev, "lifo-fifo-new"})
 			}
@@ -186,7 +189,7 @@ func histories(tier string) []scen {
 		if len(prefix) == depth-1+0 {
 			return
 		}
-		for d := 0; d < PoolUsers; d++ {
+		for _, d := range menu {
 			rec(append(append([]int{}, prefix...), d))
 		}
 	}
@@ -251,6 +254,34 @@ func history(r *fw.R, s scen) {
 	}
 }
 
+// useAfterPut runs one body alone, single-threaded, with pooled objects overwritten on Put (zero
+// value, content of the previously released object, or scrambled integers/bools); the
+// result must be bit-identical to the unpoisoned run (otherwise the call read an object after
+// returning it to the pool, which races with any concurrent Get).
+func useAfterPut(r *fw.R, i int, mode string) {
+	want := alone([]int{i})[0]
+	drainPools()
+	vsync.Poison, vsync.PoisonDonor, vsync.PoisonScramble = true, mode == "donor", mode == "scramble"
+	defer func() { vsync.PoisonDonor, vsync.PoisonScramble = false, false }()
+	var got string
+	run := sched.Execute(nil, []func(){func() { got = Bodies[i].Run() }})
+	r.States++
+	r.Transitions += int64(len(run.Choices)) + 1
+	r.Validated++
+	if run.Panic != nil {
+		r.Violate("use-after-put", fmt.Sprintf("%s panics when pooled objects are overwritten (%s) on Put: %v", Bodies[i].Name, mode, run.Panic))
+		return
+	}
+	if got != want && !Bodies[i].Relative {
+		r.Violate("use-after-put", fmt.Sprintf("%s returns %.160q when pooled objects are overwritten (%s) on Put, %.160q otherwise: it reads an object after returning it to the pool", Bodies[i].Name, got, mode, want))
+		return
+	}
+	r.NontrivialIdx()
+	r.Outcome("no-use-after-put:" + mode)
+}
+
+var poisonModes = []string{"zero", "donor", "scramble"}
+
 func families(tier string) []fw.Family {
 	sc := scenarios(tier)
 	hs := histories(tier)
@@ -260,6 +291,11 @@ func families(tier string) []fw.Family {
 		maxExec = 3000000
 	}
 	return []fw.Family{
+		{Name: "use-after-put (pooled objects overwritten on Put, one call alone)", N: PoolUsers * 3,
+			Check: func(i int64, r *fw.R) { useAfterPut(r, int(i/3), poisonModes[i%3]) },
+			Desc: func(i int64) string {
+				return Bodies[i/3].Name + " with pooled objects overwritten on Put: " + poisonModes[i%3]
+			}},
 		{Name: "interleavings", N: int64(len(sc)),
 			Check: func(i int64, r *fw.R) { scenario(r, sc[i].idx, sc[i].pre, sc[i].dev, sc[i].answers, maxExec) },
 			Desc:  func(i int64) string { return sc[i].String() }},
